@@ -251,6 +251,21 @@ fn op_comps(j: &Value) -> Value {
     })
 }
 
+/// every subset of the graph's edges at once: components, loop number, spanning flag, weight sum
+fn op_subsets(j: &Value) -> Value {
+    let tg = pre::from_graph(graph_from(j), 4);
+    let n = tg.topology.len();
+    let (mut comps, mut loops, mut mms, mut wsum) = (vec![], vec![], vec![], vec![]);
+    for mask in 0..(1usize << n) {
+        let subset: Vec<usize> = (0..n).filter(|e| mask & (1 << e) != 0).collect();
+        comps.push(json!(pre::connected_components(&tg, &subset)));
+        loops.push(pre::loop_number(&tg, &subset));
+        mms.push(pre::is_mass_momentum_spanning(&tg, &subset));
+        wsum.push(f2b(pre::weight_sum(&tg, &subset)));
+    }
+    json!({"comps": comps, "loops": loops, "mms": mms, "wsum": wsum})
+}
+
 fn op_edge(j: &Value) -> Value {
     let t = table_from_bits(&j["table"]);
     let g = get_usize(j, "g");
@@ -550,6 +565,7 @@ fn handle(j: &Value) -> Value {
         "graph" => op_graph(j),
         "build" => op_build(j),
         "comps" => op_comps(j),
+        "subsets" => op_subsets(j),
         "edge" => op_edge(j),
         "perm" => op_perm(j),
         "lmat" => op_lmat(j),
